@@ -226,8 +226,10 @@ impl SchedulerCore {
 
         // Find the first thread that is not marked as busy and schedule this task on it
         for &(ref busy_rc, ref thread) in threads.iter() {
-            if let Ok(mut busy) = busy_rc.try_lock() {
-                // If the busy lock is held, then we consider the thread to be busy
+            // Wait for the busy lock: a thread that holds it is deciding whether or not to go dormant, and only stays
+            // busy if it finds something to run. (Treating a held lock as 'busy' can strand a queue that was scheduled
+            // after the thread had checked the schedule and before it cleared its busy flag)
+            if let Ok(mut busy) = busy_rc.lock() {
                 if !*busy {
                     // Clone the busy mutex so we can return this thread to readiness
                     let also_busy =  busy_rc.clone();
